@@ -2,6 +2,7 @@ package props
 
 import (
 	"bytes"
+	"encoding/json"
 	"fmt"
 	"strings"
 	"sync"
@@ -120,9 +121,10 @@ func provenances() []provenance {
 
 func init() {
 	p := register(&Prop{ID: "C08", Level: "model_checking",
-		Rule: "explicit-state exploration of the real interpreter with value-semantics lockstep: (A) provenance x transformer grid: 19 ways of obtaining two stack items backed by the same bytes (direct push from the caller's script, DUP, 2DUP, 3DUP, OVER, 2OVER, PICK, TUCK, IFDUP, SPLIT left/right/at 0, alt-stack round trip, SWAP/ROT/2SWAP/ROLL of a copy, twin parked on the alt stack, CAT with empty) x EVERY opcode byte 0x4f..0xff as transformer x extra operand lists of length 0..2 over 4/6 edge operands x 6 (quick) / 16 (thorough) values V x both eras; (B) the mixed-alphabet program search of C05 (all programs to depth 3/4 from 79 seed stacks); (C) signature runs: valid and invalid P2PKH, P2PK and 2-of-3 multisig spends with real signatures, FORKID and legacy, both eras, with OP_CODESEPARATOR and signature-in-script variants (CHECKSIG and CHECKMULTISIG). Oracles on every execution: every item of both stacks equals the value-semantics reference after every instruction; the caller's locking and unlocking script buffers are byte-identical afterwards; tx.Bytes() is unchanged and the checked input records nothing but the spent output; with and without a debugger attached, and with the scripts handed over through WithScripts for a transaction whose checked input has no unlocking script yet. states = distinct snapshots, transitions = instructions compared",
+		Rule: "explicit-state exploration of the real interpreter with value-semantics lockstep: (A) provenance x transformer grid: 19 ways of obtaining two stack items backed by the same bytes (direct push from the caller's script, DUP, 2DUP, 3DUP, OVER, 2OVER, PICK, TUCK, IFDUP, SPLIT left/right/at 0, alt-stack round trip, SWAP/ROT/2SWAP/ROLL of a copy, twin parked on the alt stack, CAT with empty) x EVERY opcode byte 0x4f..0xff as transformer x extra operand lists of length 0..2 over 4/6 edge operands x 6 (quick) / 16 (thorough) values V x both eras; (B) the mixed-alphabet program search of C05 (all programs to depth 3/4 from 79 seed stacks); (C) signature runs: valid and invalid P2PKH, P2PK and 2-of-3 multisig spends with real signatures, FORKID and legacy, both eras, with OP_CODESEPARATOR and signature-in-script variants (CHECKSIG and CHECKMULTISIG); (D) a transaction that does not re-parse (31-byte previous txid on another input), checked input last, CHECKSIG and CHECKMULTISIG with every hash-type byte x 4 flag words x 0..3 outputs: every output and the serialisation unchanged. Oracles on every execution: every item of both stacks equals the value-semantics reference after every instruction; the caller's locking and unlocking script buffers are byte-identical afterwards; tx.Bytes() is unchanged and the checked input records nothing but the spent output; with and without a debugger attached, and with the scripts handed over through WithScripts for a transaction whose checked input has no unlocking script yet. states = distinct snapshots, transitions = instructions compared",
 	})
 	NewSpace(p, "exec", c08Check)
+	spOdd := NewSpace(p, "odd-tx", c08OddCheck)
 	p.Run = func(r *rep.Run, thorough bool) {
 		n, err := scriptref.Anchor(vectorsDir() + "/script_tests.json")
 		if err != nil {
@@ -192,6 +194,16 @@ func init() {
 		sigCases := c08SigCases()
 		sp.Slice(r, sigCases)
 		r.Note("signature_runs", len(sigCases))
+		var odd []c08Odd
+		for ht := 0; ht < 256; ht++ {
+			for _, f := range []uint32{0, fGenesis, scriptref.ForkID, scriptref.ForkID | fGenesis} {
+				for nout := 0; nout <= 3; nout++ {
+					odd = append(odd, c08Odd{HT: uint8(ht), Flags: f, NOut: nout}, c08Odd{HT: uint8(ht), Flags: f, NOut: nout, Multi: true})
+				}
+			}
+		}
+		spOdd.Slice(r, odd)
+		r.Note("odd_transaction_runs", len(odd))
 		r.Note("states", r.DistinctCount())
 		r.Note("transitions", transitions)
 		r.Note("traces_validated_against_impl", traces)
@@ -258,3 +270,58 @@ func c08SigCases() []scriptCase {
 }
 
 func bytesJoin(parts ...[]byte) []byte { return bytes.Join(parts, nil) }
+
+// c08Odd: a transaction that does not survive a serialisation round trip (another input's
+// previous txid has 31 bytes, as the JSON API lets one build), so the interpreter's internal
+// copies take their fallback path; the checked input is the LAST one.
+type c08Odd struct {
+	HT    uint8  `json:"hash_type"`
+	Flags uint32 `json:"flags"`
+	NOut  int    `json:"nout"`
+	Multi bool   `json:"multisig"`
+}
+
+func c08OddCheck(c c08Odd) (fs []rep.Finding) {
+	k := keyOf(0)
+	lock := bytesJoin(minimalPush(k.comp), []byte{0xac})
+	sig := append([]byte{0x30, 0x06, 0x02, 0x01, 0x01, 0x02, 0x01, 0x01}, c.HT)
+	unlock := pushAll(sig)
+	if c.Multi {
+		lock = bytesJoin([]byte{0x51}, minimalPush(k.comp), []byte{0x51, 0xae})
+		unlock = pushAll([]byte{}, sig)
+	}
+	tx := &bt.Tx{Version: 1, LockTime: 7}
+	var odd bt.Input
+	doc := fmt.Sprintf(`{"unlockingScript":"51","txid":"%x","vout":3,"sequence":9}`, txid32(7)[:31])
+	if err := json.Unmarshal([]byte(doc), &odd); err != nil {
+		return nil
+	}
+	tx.Inputs = append(tx.Inputs, &odd)
+	in := &bt.Input{PreviousTxOutIndex: 1, SequenceNumber: 0xfffffffe, UnlockingScript: libScript(unlock)}
+	_ = in.PreviousTxIDAdd(txid32(9))
+	tx.Inputs = append(tx.Inputs, in)
+	for i := 0; i < c.NOut; i++ {
+		tx.Outputs = append(tx.Outputs, &bt.Output{Satoshis: uint64(1000 + i), LockingScript: libScript(refP2PKH(fill(20, byte(i+1))))})
+	}
+	before := tx.Bytes()
+	var outsBefore [][]byte
+	for _, o := range tx.Outputs {
+		outsBefore = append(outsBefore, o.Bytes())
+	}
+	prev := &bt.Output{Satoshis: 5000, LockingScript: libScript(lock)}
+	if f := rep.Guard(func() {
+		_ = interpreter.NewEngine().Execute(interpreter.WithTx(tx, 1, prev), interpreter.WithFlags(scriptflag.Flag(c.Flags)))
+	}); f != nil {
+		return append(fs, *f)
+	}
+	for i, o := range tx.Outputs {
+		if !bytes.Equal(o.Bytes(), outsBefore[i]) {
+			fs = append(fs, rep.F("transaction-serialisation-changed|odd-tx|output", fmt.Sprintf("output %d of the caller's transaction changed from %x to %x", i, outsBefore[i], o.Bytes())))
+			return
+		}
+	}
+	if !bytes.Equal(before, tx.Bytes()) {
+		fs = append(fs, rep.F("transaction-serialisation-changed|odd-tx", "tx.Bytes() differs after execution"))
+	}
+	return
+}
